@@ -722,6 +722,16 @@ val nx_edges : graph -> (char list * char list) list
 
 val varlike_id : char list -> bool
 
+val parse_tindex : char list -> pidx
+
+val verb_body : char list -> char list
+
+val tok_of_match : tmatch -> ntok option
+
+val toks_of_items : item list -> ntok list option
+
+val tokenise : char list -> neq option
+
 val idx_text : char list -> char list -> char list -> char list
 
 val bare_follow : char list -> bool
@@ -798,3 +808,13 @@ val dq_ok : layout -> neq -> bool
 val dq_ok_canon : neq -> bool
 
 val denorm_canon : neq -> char list
+
+val is_blank_tok : ntok -> bool
+
+val skip_blank_toks : ntok list -> ntok list
+
+val styled : layout -> ntok -> bool
+
+val is_kw_tok : ntok -> bool
+
+val sep_ok : layout -> ntok list -> bool
